@@ -208,7 +208,8 @@ class Run:
         if key not in self.clients:
             svc = self.world.services[service]
             if kind == "rest":
-                tr = svc["rest"](credentials=ga_credentials.AnonymousCredentials(), host="sim.invalid")
+                tr = svc["rest"](credentials=ga_credentials.AnonymousCredentials(), host=self.sc.get("rest_host", "sim.invalid"),
+                                 url_scheme=self.sc.get("url_scheme", "https"))
                 self.clients[key] = svc["sync"](transport=tr)
             else:
                 ch = simgrpc.SimChannel(self.sim)
